@@ -165,7 +165,7 @@ def optable(run, model, rule="C06.optable"):
         results = set()
         for p in feas:
             r = p.env.get("result") or p.env.get("comparison")
-            cands = [v for k, v in p.env.items() if v[0] == "op" and v[1].startswith("cmp:")]
+            cands = [v for k, v in p.env.items() if v[0] == "op" and v[1].startswith("cmp:") and len(v[2]) == 2 and _visit_of(v[2][1]) is not None]
             if not cands:
                 bad = "ast.%s is not computed on some path" % name
                 continue
